@@ -5,6 +5,8 @@
 set -u
 patch="$1"; tier="$2"; shift 2
 cd /verif
+export VERIF_EVIDENCE_DIR=/verif/target/evidence_scratch
+mkdir -p "$VERIF_EVIDENCE_DIR"
 if ! git -C /repo diff --quiet; then echo "refusing: /repo has uncommitted changes" >&2; exit 2; fi
 git -C /repo apply "$patch" || { echo "patch does not apply" >&2; exit 2; }
 trap 'git -C /repo checkout -- . ; git -C /repo clean -fdq tests 2>/dev/null' EXIT
